@@ -832,8 +832,12 @@ class Layout:
 
         if self.origin:
             # Calculated values to be used if replacement is needed
-            diff_horizontal = Size(90 - self.origin.x.value, UnitEnum.PERCENT)
-            diff_vertical = Size(95 - self.origin.y.value, UnitEnum.PERCENT)
+            # (an origin beyond the safe area leaves no room at all: the extent
+            # is then 0%, never a negative length, which no reader accepts)
+            diff_horizontal = Size(
+                max(0, 90 - self.origin.x.value), UnitEnum.PERCENT)
+            diff_vertical = Size(
+                max(0, 95 - self.origin.y.value), UnitEnum.PERCENT)
             if not self.extent:
                 # Extent is not set, use the calculated values
                 new_extent = Stretch(diff_horizontal, diff_vertical)
